@@ -7,6 +7,7 @@ compared as exact values of the model, i.e. the equality is "bit for bit" under 
 assumption that C arithmetic is a deterministic function of its operands.
 -/
 import Sb.Proofs.TrajHistory
+import Sb.Properties.C08Yaw
 
 namespace Sb.C08
 open Sb Sb.Poly Sb.Traj Sb.Proofs
